@@ -45,11 +45,12 @@ def jobs(tier, seed):
                                   dict(n=n, mode=mode, mu_given=mu_given, start_given=start_given, seed=seed, timeout_s=t),
                                   timeout_s=(240.0 if tier == "quick" else 900.0), weight=float(n)))
     from .C02 import e2_jobs
-    js += e2_jobs("C11", ["contracts.C11_e2:LossMinimizationWiring"], tier, seed)
+    js += e2_jobs("C11", ["contracts.C11_e2:LossMinimizationWiring", "contracts.C11_e2:LossValueAndGradient", "contracts.C11_e2:EntropyLossValueAndGradient",
+                          "contracts.C11_e2:ProjectionInstalled"], tier, seed)
     return js
 
 
 CLAIM = {'engine': 'E1-pyvc', 'level': 'other',
- 'text': 'PARTIAL. The last sentence of C11 is proved as loop invariants of the unmodified ProjectedGradientDescentBacktracking.optimize (VCs generated from its AST; loss, gradient and projection are uninterpreted functions constrained only by their assumed contracts): for every loss function, every closed convex set C with nearest-point projection, every start point in C, every mu > 0 (given or default), gamma > 0, every stopping mode and every iteration count, each iterate lies in C, loss(x_{k+1}) <= loss(x_k) <= loss(x_0), the step length stays in (0,1], and the returned value is the last iterate. _is_doing_for_alpha is proved to be exactly the Armijo test and used through that contract. The two real-arithmetic lemmas used (descent direction from the variational inequality; sign of gamma*alpha*<y,g>) are discharged separately.',
+ 'text': 'PARTIAL. The last sentence of C11 is proved as loop invariants of the unmodified ProjectedGradientDescentBacktracking.optimize (VCs generated from its AST; loss, gradient and projection are uninterpreted functions constrained only by their assumed contracts): for every loss function, every closed convex set C with nearest-point projection, every start point in C, every mu > 0 (given or default), gamma > 0, every stopping mode and every iteration count, each iterate lies in C, loss(x_{k+1}) <= loss(x_k) <= loss(x_0), the step length stays in (0,1], and the returned value is the last iterate. _is_doing_for_alpha is proved to be exactly the Armijo test and used through that contract. The estimator wiring (every dataset of a sequence and every re-used object sees its own loss, constraint and algorithm) is proved with a probe optimiser, and the callee contracts the claim rests on (loss value / gradient of C12, installed projection of C10) are re-checked here. The two real-arithmetic lemmas used (descent direction from the variational inequality; sign of gamma*alpha*<y,g>) are discharged separately.',
  'note': 'NOT decided: optimality of the returned point over the physical set, agreement with the CVXPY/SCS estimator, termination of either loop (no contract over one call states them; SCS is external). Vector length 1..3 (1..4 thorough) componentwise; floats as reals. Refuted obligations are replayed by a native search over concrete convex quadratic problems with box constraints on the real class.',
  'technique': 'contract-based deductive verification (AST->VC, loop invariants, uninterpreted callee contracts, z3/cvc5)'}
